@@ -182,10 +182,12 @@ def lexLe : List UInt8 → List UInt8 → Bool
   | _ :: _, [] => false
   | a :: as, b :: bs => if a < b then true else if b < a then false else lexLe as bs
 
-/-- insertion sort of rotation indices by (rotation, index). -/
+/-- insertion sort of rotation indices by rotation; equal rotations (periodic
+    input) are ordered by descending index, which is what a suffix sort of the
+    doubled string gives (the shorter of two equal-prefixed suffixes is smaller). -/
 def insertRot (xs : List UInt8) (k : Nat) : List Nat → List Nat
   | [] => [k]
-  | j :: js => if lexLe (rotate xs k) (rotate xs j) ∧ (rotate xs k ≠ rotate xs j ∨ k ≤ j) then k :: j :: js
+  | j :: js => if lexLe (rotate xs k) (rotate xs j) ∧ (rotate xs k ≠ rotate xs j ∨ k ≥ j) then k :: j :: js
                else j :: insertRot xs k js
 
 /-- specification of the forward transform: last column of the sorted
